@@ -13,6 +13,12 @@
 //!     output: 0 kind                            error (ErrorKind code of the error handed to the host)
 //!             1 n o1..on                        rendered output (code points)
 //!             3                                 loader closure returned Ok(None)
+//! mode 2 (names computed inside a template, with and without a path-join callback; fresh environment per case):
+//!     input : 2 cb how np parent.. nn name..    cb: 0 none, 1 the documented relative join, 2 "../" + name,
+//!                                               3 parent + "/../" + name;  how: 1 include, 2 extends, 3 import,
+//!                                               4 from-import, 5 {% include [name, 'a'] %}; the referring template is
+//!                                               registered under the name `parent`
+//!     output: as mode 1, followed by  -5 k (n c1..cn)*k   the names the loader was asked for, in order
 use minijinja::{context, path_loader, Environment};
 use mjverif::*;
 
@@ -46,6 +52,65 @@ fn main() {
             {
                 let _ = (b, name);
                 out.push("7".into());
+            }
+            return out;
+        }
+        if mode == 2 {
+            let cb = c.i64();
+            let how = c.i64();
+            let parent = c.str();
+            let name = c.str();
+            let asked: std::sync::Arc<std::sync::Mutex<Vec<String>>> = Default::default();
+            let a2 = asked.clone();
+            let inner = path_loader(base.clone());
+            let mut env2 = Environment::new();
+            env2.set_loader(move |n| {
+                a2.lock().unwrap().push(n.to_string());
+                inner(n)
+            });
+            match cb {
+                1 => env2.set_path_join_callback(|name, parent| {
+                    let mut rv = parent.split('/').collect::<Vec<_>>();
+                    rv.pop();
+                    name.split('/').for_each(|segment| match segment {
+                        "." => {}
+                        ".." => {
+                            rv.pop();
+                        }
+                        _ => rv.push(segment),
+                    });
+                    rv.join("/").into()
+                }),
+                2 => env2.set_path_join_callback(|name, _parent| format!("../{name}").into()),
+                3 => env2.set_path_join_callback(|name, parent| format!("{parent}/../{name}").into()),
+                _ => {}
+            }
+            let src = match how {
+                1 => "{% include name %}",
+                2 => "{% extends name %}",
+                3 => "{% import name as m %}{{ m.marker }}",
+                4 => "{% from name import marker %}{{ marker }}",
+                _ => "{% include [name, 'a'] %}",
+            };
+            let res = env2
+                .add_template_owned(parent.clone(), src.to_string())
+                .and_then(|_| env2.get_template(&parent))
+                .and_then(|t| t.render(context! { name => name }));
+            match res {
+                Ok(s) => {
+                    out.push("1".into());
+                    push_str(&mut out, &s);
+                }
+                Err(e) => {
+                    out.push("0".into());
+                    out.push(err_code(e.kind()).to_string());
+                }
+            }
+            let a = asked.lock().unwrap();
+            out.push("-5".into());
+            out.push(a.len().to_string());
+            for n in a.iter() {
+                push_str(&mut out, n);
             }
             return out;
         }
